@@ -116,63 +116,137 @@ LIBS = [[], ["Servo"], ["Servo", "Servo"], ["", "Servo", ""], ["Wire", "", "Serv
 SOURCES = ["void setup(){}\nvoid loop(){}\n", "// café … ü\n", ""]
 
 
+PRIORS = ["absent", "same", "crlf", "cr", "other", "longer"]
+
+
+def _prior_text(kind, text):
+    if kind == "same":
+        return text
+    if kind == "crlf":
+        return text.replace("\n", "\r\n")
+    if kind == "cr":
+        return text.replace("\n", "\r")
+    if kind == "other":
+        return "// stale\n"
+    return text + "// trailing stale bytes\n"
+
+
+_AUDIT = {"armed": False, "root": None, "outside": []}
+_WRITE_EVENTS = ("os.mkdir", "os.remove", "os.rename", "os.rmdir", "os.symlink", "os.link", "os.chmod", "os.truncate",
+                 "os.chown", "os.utime", "shutil.rmtree", "shutil.move", "shutil.copyfile")
+
+
+def _audit(event, args):
+    if not _AUDIT["armed"]:
+        return
+    paths = []
+    if event == "open":
+        path, mode, flags = (tuple(args) + (None, None, None))[:3]
+        writing = (isinstance(mode, str) and any(c in mode for c in "wax+")) or (
+            isinstance(flags, int) and flags & (os.O_WRONLY | os.O_RDWR | os.O_CREAT | os.O_TRUNC | os.O_APPEND))
+        if writing and isinstance(path, (str, bytes, os.PathLike)):
+            paths.append(path)
+    elif event in _WRITE_EVENTS:
+        paths = [a for a in args[:2] if isinstance(a, (str, bytes, os.PathLike))]
+    for q in paths:
+        q = os.path.abspath(os.fsdecode(q))
+        if not (q == _AUDIT["root"] or q.startswith(_AUDIT["root"] + os.sep)):
+            _AUDIT["outside"].append((event, q))
+
+
 def project_obligation(item):
-    """Real write_project with pathlib replaced by a recorder, over ports x library lists x sources x boards
-    (finite enumeration); the ini is read back with configparser(interpolation=None)."""
+    """Real write_project on a real scratch directory (created and removed here) whose prior contents vary, over
+    ports x library lists x sources x boards (finite enumeration); an audit hook records every file-system write
+    event of the process while the call runs; the ini is read back with configparser(interpolation=None)."""
+    import shutil
+    import sys
+    import tempfile
     res = Result(item[1], "holds", nontrivial=False)
+    from Reduino.toolchain import pio as P
+    sys.addaudithook(_audit)
+    base = tempfile.mkdtemp(prefix="verif-c13-")
     n = 0
-    for port in PORTS:
-        for libs in LIBS:
-            for src in SOURCES:
-                for bi in range(4):
-                    n += 1
-                    problem = _project_case(port, libs, src, bi)
-                    if problem:
-                        res.verdict = "violation"
-                        res.detail = f"{problem} (port={port!r}, libs={libs!r}, board #{bi})"
-                        res.witness = {"port": port, "libs": libs, "source": src, "class": problem[:60]}
-                        return res
+    try:
+        for port in PORTS:
+            for libs in LIBS:
+                for si, src in enumerate(SOURCES):
+                    for bi in range(4):
+                        prior = PRIORS[n % len(PRIORS)]
+                        n += 1
+                        problem = _project_case(P, base, n, port, libs, src, bi, prior)
+                        if problem:
+                            res.verdict = "violation"
+                            res.detail = f"{problem} (port={port!r}, libs={libs!r}, board #{bi}, prior directory state: {prior})"
+                            res.witness = {"port": port, "libs": libs, "source": src, "prior": prior, "class": problem[:60]}
+                            return res
+    finally:
+        _AUDIT["armed"] = False
+        shutil.rmtree(base, ignore_errors=True)
     res.queries = n
-    res.sample = {"obligation": res.oid, "cases": n, "ports": PORTS[:4], "libs": LIBS[:5]}
+    res.sample = {"obligation": res.oid, "cases": n, "ports": PORTS[:4], "libs": LIBS[:5], "prior_states": PRIORS}
     return res
 
 
-def _project_case(port, libs, src, bi):
-    log = []
+def _tree(root):
+    out = {}
+    for d, dirs, files in os.walk(root):
+        for f in files:
+            q = os.path.join(d, f)
+            with open(q, "rb") as fh:
+                out[os.path.relpath(q, root)] = fh.read()
+        for x in dirs:
+            out[os.path.relpath(os.path.join(d, x), root) + "/"] = None
+    return out
 
-    class FakePath:
-        def __init__(self, *parts):
-            self.s = "/".join(str(p.s if isinstance(p, FakePath) else p) for p in parts)
 
-        def __truediv__(self, o):
-            return FakePath(self.s, o)
-
-        def __str__(self):
-            return self.s
-
-        def mkdir(self, parents=False, exist_ok=False):
-            log.append(("mkdir", self.s))
-
-        def write_text(self, data, encoding=None):
-            log.append(("write", self.s, data, encoding))
-            return len(data)
-    hw = pysym.HostWorld(stub_top=True, patched=False, overrides={"pathlib": types.SimpleNamespace(Path=FakePath)})
-    P = hw.load("Reduino.toolchain.pio")
+def _project_case(P, base, n, port, libs, src, bi, prior):
+    from pathlib import Path
     sp = P.SUPPORTED_PLATFORMS
     pairs = [(p, sorted(bs)[k]) for p, bs in sorted(sp.items()) for k in (0, len(bs) - 1)]
     platform, board = pairs[bi % len(pairs)]
-    P.write_project(FakePath("/PROJ"), src, port, platform=platform, board=board, lib_deps=libs)
-    writes = {e[1]: e for e in log if e[0] == "write"}
-    if writes.get("/PROJ/src/main.cpp", (None,) * 3)[2] != src:
-        return "main.cpp does not receive the source verbatim"
-    if not all(e[3] == "utf-8" for e in writes.values()):
-        return "a file is not written as UTF-8"
-    if sorted({e[1] for e in log}) != ["/PROJ/platformio.ini", "/PROJ/src", "/PROJ/src/main.cpp"]:
-        return "something other than src/, src/main.cpp and platformio.ini is touched"
-    ini = writes.get("/PROJ/platformio.ini")
+    arena = os.path.join(base, f"case{n}")
+    proj = os.path.join(arena, "proj")
+    os.makedirs(os.path.join(arena, "sibling"))
+    with open(os.path.join(arena, "sibling", "keep.txt"), "w") as f:
+        f.write("keep")
+    if prior != "absent":
+        os.makedirs(os.path.join(proj, "src"))
+        with open(os.path.join(proj, "src", "main.cpp"), "w", newline="") as f:
+            f.write(_prior_text(prior, src))
+        with open(os.path.join(proj, "platformio.ini"), "w", newline="") as f:
+            f.write(_prior_text(prior, "[env:old]\nplatform = x\n"))
+    before = _tree(arena)
+    _AUDIT.update(armed=True, root=os.path.abspath(proj), outside=[])
+    try:
+        P.write_project(Path(proj), src, port, platform=platform, board=board, lib_deps=libs)
+    except ValueError as e:
+        return f"write_project refuses the registered pair ({platform!r}, {board!r}): {e}"[:160]
+    finally:
+        _AUDIT["armed"] = False
+    if _AUDIT["outside"]:
+        ev, q = _AUDIT["outside"][0]
+        return f"writes outside the project directory ({ev} {q.replace(base, '<tmp>')})"
+    after = _tree(arena)
+    for k, v in before.items():
+        if not k.startswith("proj") and after.get(k, "<gone>") != v:
+            return "something outside the project directory changed"
+    if any(k not in before and not k.startswith("proj") for k in after):
+        return "something outside the project directory was created"
+    try:
+        with open(os.path.join(proj, "src", "main.cpp"), "rb") as f:
+            got = f.read()
+    except OSError:
+        return "src/main.cpp is not written"
+    if got != src.encode("utf-8"):
+        return "main.cpp does not hold the source verbatim"
+    try:
+        with open(os.path.join(proj, "platformio.ini"), "rb") as f:
+            ini = f.read().decode("utf-8")
+    except (OSError, UnicodeDecodeError):
+        return "platformio.ini is not written as UTF-8"
     cp = configparser.ConfigParser(interpolation=None)
     try:
-        cp.read_string(ini[2])
+        cp.read_string(ini)
     except configparser.Error as e:
         return f"platformio.ini does not parse as INI ({type(e).__name__})"
     secs = cp.sections()
@@ -192,7 +266,55 @@ def _project_case(port, libs, src, bi):
         return f"libraries read back as {got_libs!r}, expected first-seen de-duplication {want_libs!r}"
     if sorted(sec.keys()) != sorted(["platform", "board", "framework", "upload_port"] + (["lib_deps"] if want_libs else [])):
         return "unexpected keys in the environment"
+    shutil_rm(arena)
     return None
+
+
+def shutil_rm(path):
+    import shutil
+    shutil.rmtree(path, ignore_errors=True)
+
+
+def fs_lemma_obligation(tier):
+    """CrossHair: final project state is independent of symbolic prior file contents; main.cpp verbatim."""
+    res = Result("lemma/prior_state", "holds")
+    pct = 60 if tier == "quick" else 400
+    mod = os.path.join(VERIF, "vlib", "ch", "pio_fs_lemma.py")
+    report, raw, dt = run_crosshair(mod, {"MAXLEN": 3 if tier == "quick" else 5}, per_condition_timeout=pct,
+                                    total_timeout=pct * 2 + 60)
+    res.solver_s, res.queries = dt, 1
+    fn = "project_ignores_prior_state"
+    st, msg = report.get(fn, ("inconclusive", "no report line: " + raw[-300:]))
+    res.sample = {"obligation": res.oid, "contract": fn, "status": st, "engine": "crosshair-tool",
+                  "bounds": "source and prior main.cpp / platformio.ini contents: arbitrary strings of <= 3 (quick) / 5 chars, or absent"}
+    if st == "confirmed":
+        return res
+    if st == "refuted":
+        import re as _re
+        m = _re.search(r"calling \w+\((.*)\) \(which", msg)
+        args = None
+        if m:
+            try:
+                args = eval("(" + m.group(1) + ",)", {"__builtins__": {}})
+            except Exception:
+                args = None
+        ok = None
+        if isinstance(args, tuple) and len(args) == 3:
+            from ..ch import pio_fs_lemma as real
+            try:
+                ok = real.replay_project_ignores_prior_state(*args)
+            except Exception as e:      # noqa: BLE001
+                ok = f"{type(e).__name__}: {e}"
+        if ok is False:
+            res.verdict = "violation"
+            res.detail = (f"write_project(src={args[0]!r}) into a directory whose main.cpp held {args[1]!r} and platformio.ini "
+                          f"{args[2]!r} does not leave the same files as into a fresh directory / main.cpp is not the source verbatim")
+            res.witness = {"src": args[0], "prior_main": args[1], "prior_ini": args[2], "class": "prior-state"}
+            return res
+        res.verdict, res.detail = "inconclusive", f"counterexample did not replay ({ok!r}): {msg}"[:300]
+        return res
+    res.verdict, res.detail = "inconclusive", f"{fn}: {msg}"[:300]
+    return res
 
 
 def lemma_obligation(tier):
@@ -243,6 +365,8 @@ def _work(item):
         return project_obligation(item)
     if kind == "lemma":
         return lemma_obligation(item[1])
+    if kind == "fslemma":
+        return fs_lemma_obligation(item[1])
     raise ValueError(kind)
 
 
@@ -250,9 +374,10 @@ def run(tier, seed, only=None):
     t0 = time.time()
     n = 8
     items = [("registry", f"registry/accepts[{i}/{n}]", i, n) for i in range(n)]
-    items += [("partition", "registry/partition"), ("project", "project/round_trip"), ("lemma", tier)]
+    items += [("partition", "registry/partition"), ("project", "project/round_trip"), ("lemma", tier),
+              ("fslemma", tier, "lemma/prior_state")]
     if only:
-        items = [i for i in items if only in str(i[1])]
+        items = [i for i in items if only in str(i[1:])]
     results = run_obligations(items, _work)
     return finish(
         "C13", "other", tier, seed, results, t0,
@@ -260,8 +385,12 @@ def run(tier, seed, only=None):
                     "registry plus systematic near-miss spellings (case, surrounding whitespace, truncation, separators) - "
                     "exhaustive enumeration of that finite domain, NOT a solver query (said so: a dict lookup on a symbolic "
                     "string is outside what the engines here encode); the partition claim is a "
-                    "finite-domain z3 string query over the live tables.  Project files: the real write_project with pathlib "
-                    "replaced by a recorder; the rendered ini is read back with configparser(interpolation=None) for awkward "
+                    "finite-domain z3 string query over the live tables.  Project files: (a) CrossHair (z3) runs the real write_project "
+                    "against an in-memory file system whose prior main.cpp / platformio.ini contents are symbolic strings (or "
+                    "absent) and decides that the final files equal those of a fresh directory and main.cpp is the source "
+                    "verbatim; (b) the real write_project writes into a real scratch directory with six prior states while an "
+                    "audit hook records every write-type file-system event of the process; the ini is read back with "
+                    "configparser(interpolation=None) for awkward "
                     "printable ports and library lists with duplicates/empties; CrossHair (z3) checks _format_lib_section "
                     "against first-seen de-duplication and _sanitize_env_name for arbitrary short strings.",
         functions_encoded=["Reduino.toolchain.pio.validate_platform_board", "write_project", "_format_lib_section (CrossHair)",
@@ -271,7 +400,7 @@ def run(tier, seed, only=None):
         assumptions=["ports are printable without newline and without leading/trailing blanks (an INI value cannot carry those)",
                      "the registry/near-miss part is exhaustive enumeration of a finite domain driven by the solver, not a "
                      "quantification over all strings"],
-        stubs=["pathlib.Path -> recorder"],
+        stubs=["pathlib.Path -> in-memory file system with universal-newline text reads (CrossHair lemma only)"],
         exhaustive=True,
     )
 
